@@ -76,15 +76,37 @@ def get_vocab(ctx):
 # normal-form descriptor of Token.normalized, from the AST of Token.__init__
 
 def normalized_descriptor(ctx):
-    """{'upper': bool, 'ws': bool} for keyword tokens"""
+    """{'upper': ..., 'ws': bool} for keyword tokens: the weakest normal form over all paths of
+    Token.__init__ on which the token is a keyword (copy propagation along each path)."""
+    from .astutil import enum_paths, sym_path
     f = ctx.repo.func('sqlparse.sql.Token.__init__')
-    st = [s for s in own_nodes(f.node) if isinstance(s, ast.Assign) and any(is_attr(t, 'normalized', 'self') for t in s.targets)]
-    ctx.need(len(st) == 1, 'Token.__init__ no longer stores self.normalized exactly once')
-    v = st[0].value
-    kw_expr = v
-    if isinstance(v, ast.IfExp) and 'is_keyword' in src(v.test):
-        kw_expr = v.body
-    return text_normal_form(kw_expr, f.params[2]), st[0]
+    vparam = f.params[2]
+    result = None
+    node = None
+    npaths = 0
+    for p in enum_paths(f.node.body):
+        evs, env = sym_path(p)
+        stores = [(s_, v) for (k, s_, v, _) in evs if k == 'stmt' and isinstance(s_, ast.Assign) and any(is_attr(t, 'normalized', 'self') for t in s_.targets)]
+        if not stores:
+            continue
+        s_, v = stores[-1]
+        node = s_
+        val = v.value
+        facts = [a for a in p.facts() if a[0] != '|']
+        if ('self.is_keyword', False) in facts:
+            continue
+        if isinstance(val, ast.IfExp) and 'is_keyword' in src(val.test):
+            val = val.body
+        npaths += 1
+        d = text_normal_form(val, vparam)
+        # a conditional collapse (`if ' ' in value`) only holds on that path; other paths keep the weaker form
+        if result is None:
+            result = d
+        else:
+            result = {'upper': result['upper'] if result['upper'] == d['upper'] else False, 'ws': result['ws'] and d['ws'], 'base': result['base'] and d['base']}
+    ctx.need(result is not None and node is not None, 'Token.__init__ no longer stores self.normalized')
+    # str(value) wrapping of the parameter is transparent
+    return result, node
 
 
 def text_normal_form(expr, base):
@@ -107,7 +129,8 @@ def text_normal_form(expr, base):
         inner = text_normal_form(e.args[2], base)
         inner['ws'] = True
         return inner
-    if is_name(e, base) or (isinstance(e, ast.Attribute) and e.attr in ('value',)):
+    if is_name(e, base) or (isinstance(e, ast.Attribute) and e.attr in ('value',)) or (
+            isinstance(e, ast.Call) and is_name(e.func, 'str') and len(e.args) == 1 and is_name(e.args[0], base)):
         d['base'] = True
         return d
     if isinstance(e, ast.Attribute) and e.attr == 'normalized':
